@@ -164,6 +164,15 @@ func registerRT(e *Engine) {
 		ex.recordDraw(Draw{Name: name, Kind: "string", Node: node, Len: n})
 		return StringV{node, n}, nil
 	})
+	e.reg(rtPkg+".StringIn", func(ex *Exec, fn *ssa.Function, args []Value) (Value, *PanicV) {
+		name := ex.argString(args[0])
+		n := argTerm(ex, args[1])
+		lo, hi := argTerm(ex, args[2]), argTerm(ex, args[3])
+		node := ex.baseNode("s_" + name)
+		node.pred = func(c *Ctx, e *Term) *Term { return c.And(c.Ule(lo, e), c.Ule(e, hi)) }
+		ex.recordDraw(Draw{Name: name, Kind: "string", Node: node, Len: n})
+		return StringV{node, n}, nil
+	})
 	e.reg(rtPkg+".Assume", func(ex *Exec, fn *ssa.Function, args []Value) (Value, *PanicV) {
 		t := argTerm(ex, args[0])
 		if t.IsFalse() {
